@@ -6,7 +6,10 @@ use std::{
     convert::TryInto,
     io::{Error as IoError, ErrorKind, Result as IoResult},
     pin::Pin,
-    sync::Arc,
+    sync::{
+        atomic::{AtomicU16, Ordering},
+        Arc,
+    },
     time::Duration,
 };
 use tokio::{
@@ -160,19 +163,19 @@ impl FrameReader for QuicFrameReader {
     }
 }
 
+// Fragment ids must be unique among all frames in flight on one QUIC connection: the receiving end reassembles the
+// fragments of every session of a connection with one table keyed by this id (quic_frames_thread), so the counter
+// can not be kept per session.
+static NEXT_FRAME_ID: AtomicU16 = AtomicU16::new(0);
+
 struct QuicFrameWriter {
     conn: Connection,
     session_id: u32,
-    frame_id: u16,
 }
 
 impl QuicFrameWriter {
     fn new(conn: Connection, session_id: u32) -> Box<Self> {
-        Box::new(Self {
-            conn,
-            session_id,
-            frame_id: 0,
-        })
+        Box::new(Self { conn, session_id })
     }
 }
 
@@ -192,7 +195,8 @@ impl FrameWriter for QuicFrameWriter {
                 "Datagram not allowed for this connection",
             ));
         }
-        let fragments = Fragments::make_fragments(mtu.unwrap(), &mut self.frame_id, frame);
+        let mut frame_id = NEXT_FRAME_ID.fetch_add(1, Ordering::Relaxed);
+        let fragments = Fragments::make_fragments(mtu.unwrap(), &mut frame_id, frame);
         if !fragments.is_valid() {
             return Err(IoError::new(
                 ErrorKind::InvalidInput,
